@@ -33,7 +33,7 @@ Inductive alt : value -> value -> Prop :=
 | alt_frozen : forall xs ys, scover xs ys -> scover ys xs -> alt (VFrozen xs) (VFrozen ys).
 
 (* the guard: every dict that is compared has good kept keys (pairwise different
-   for Python and after cleaning, cleanable - K8) *)
+   for Python and after cleaning) *)
 Fixpoint guard (v : value) : bool :=
   match v with
   | VAtom _ | VSet _ | VFrozen _ => true
@@ -51,10 +51,9 @@ Proof.
 Qed.
 
 Lemma keys_good_parts : forall ks, keys_good F ks = true ->
-  nodup_atoms ks = true /\ (forall k, In k ks -> key_ok F k = true) /\ nodup_atoms (map (ckey F) ks) = true.
+  nodup_atoms ks = true /\ nodup_atoms (map (ckey F) ks) = true.
 Proof.
-  intros ks H. unfold keys_good in H. apply andb_true_iff in H. destruct H as [H H3].
-  apply andb_true_iff in H. destruct H as [H1 H2]. rewrite forallb_forall in H2. auto.
+  intros ks H. unfold keys_good in H. apply andb_true_iff in H. exact H.
 Qed.
 
 (* when the types differ the leaf relation implies an ignore group covers both *)
@@ -198,8 +197,8 @@ Proof.
     apply andb_true_iff in Hg2'. destruct Hg2' as [Hk2 _].
     destruct (kmap_spec F _ Hk1) as [km1 [E1 [Ec1 [Eo1 Er1]]]].
     destruct (kmap_spec F _ Hk2) as [km2 [E2 [Ec2 [Eo2 Er2]]]].
-    destruct (keys_good_parts _ Hk1) as [Hn1 [Hok1 Hnc1]].
-    destruct (keys_good_parts _ Hk2) as [Hn2 [Hok2 Hnc2]].
+    destruct (keys_good_parts _ Hk1) as [Hn1 Hnc1].
+    destruct (keys_good_parts _ Hk2) as [Hn2 Hnc2].
     rewrite E1, E2. cbn [bind]. rewrite Ec1, Ec2.
     set (ks1 := keys_of c kvs) in *. set (ks2 := keys_of c kvs2) in *.
     (* the clean key sets cover each other *)
